@@ -417,7 +417,7 @@ def do_op(env, op):
     elif k == "set_loglevel":
         cp.log.setLevel(op[1])
     elif k == "parser_loglevel":
-        cp.CSSParser(loglevel=op[1])
+        env.parsers.append(cp.CSSParser(loglevel=op[1]))
     elif k == "tokenizer":
         import css_parser.tokenize2 as tk2
         m = MACRO_SPECS[op[1]][0] if op[1] else None
@@ -701,7 +701,7 @@ def gen_history(rng, maxlen, indent_ok, reentrant=False):
     hist, np_ = [], 0
     for _ in range(n):
         op = gen_op(rng, indent_ok, np_, reentrant)
-        if op[0] == "new_parser":
+        if op[0] in ("new_parser", "parser_loglevel"):
             np_ += 1
         hist.append(op)
     return hist
@@ -855,8 +855,11 @@ def to_model(hist, res):
                 call = "CSetRaising %s" % coq_bool(op[1])
             elif k in ("set_profile",):
                 call = "CSetProfile %d%%N" % c["profile"]
-            elif k in ("set_loglevel", "parser_loglevel", "log_handler"):
+            elif k in ("set_loglevel", "log_handler"):
                 call = "CSetLog %d%%N" % c["logcfg"]
+            elif k == "parser_loglevel":
+                call = "CNewParser false (Some %d%%N)" % c["logcfg"]
+                nparsers += 1
             elif k in ("set_pref", "use_minified", "use_defaults", "replace_prefs"):
                 call = "CSetPrefs %d%%N" % c["prefs"]
                 if st["exc"]:
@@ -866,7 +869,7 @@ def to_model(hist, res):
             elif k == "set_dx":
                 call = "CSetDX"
             elif k == "new_parser":
-                call = "CNewParser %s" % coq_bool(op[1])
+                call = "CNewParser %s None" % coq_bool(op[1])
                 nparsers += 1
             else:
                 op2 = list(op)
@@ -1204,8 +1207,8 @@ TRUSTED = [
 ]
 ASSUME = [
     "Print Assumptions of every theorem in props/C06.v: Closed under the global context (see coverage.print_assumptions)",
-    "history_independent is proved for histories in which the caller never switches prefs.indentSpecificities on "
-    "(history_independent_partial); with it on the statement is refuted (history_independent_refuted, open finding)",
+    "history_independent and caller_settings_stable are proved in full for the regenerated bracket table (since fix 2523c61 "
+    "the selector memo is scoped to one sheet serialisation); the memo bracket is abstracted to the activation",
     "callbacks (fetcher, replaceUrls replacer, logging handler) may call any public entry point, nested to any depth in the "
     "model and to depth 2 in the generated histories, but do not change the caller's settings themselves (TNestSet)",
     "a caller-installed serializer is a fresh CSSSerializer object; module reloads are not covered; "
